@@ -213,8 +213,9 @@ class ExpressionManager(object):
             )
             n = up.model.fnode.FNode(content, self._next_free_id, self.environment)
             self._next_free_id += 1
-            self.expressions[content] = n
+            # enter the node in the table only once it is known to be well-typed
             self.environment.type_checker.get_type(n)
+            self.expressions[content] = n
             return n
 
     def And(
